@@ -227,7 +227,6 @@ def mappedValue : TraitType → Val → Option Val
     match strOf w with
     | some s => (keys.findIdx? (· == s)).bind (vals[·]?)
     | none => none
-  | .noFast t, w => mappedValue t w
   | _, _ => none
 
 end TraitsVerif.Model.Val
